@@ -578,6 +578,7 @@ var rTypeKeyWho = &Rule{
 		}
 		wantFalse := map[string]bool{"encodeLeaf": true, "encodeWrapper": true, "GetSafeDetails": true, "GetTypeMark": true}
 		n := 0
+		gtdReg := regionOf(gtd, gft)
 		for _, fn := range p.HandFuncs() {
 			sx.EachInstr(fn, func(in ssa.Instruction) {
 				call, ok := in.(ssa.CallInstruction)
@@ -588,6 +589,20 @@ var rTypeKeyWho = &Rule{
 				case gft:
 					n++
 					ok := fn == gtd || fn.Name() == "RegisterTypeMigration"
+					if !ok && gtdReg.in[fn] {
+						// a helper of getTypeDetails that nobody else calls
+						ok = true
+						for _, other := range p.HandFuncs() {
+							if gtdReg.in[other] {
+								continue
+							}
+							sx.EachInstr(other, func(in2 ssa.Instruction) {
+								if c2, isC := in2.(ssa.CallInstruction); isC && sx.Callee(c2) == fn {
+									ok = false
+								}
+							})
+						}
+					}
 					c.Check(ok, load.FnName(fn)+" calls getFullTypeName", call.Pos(), "allowed caller", "the raw reflect type name is used outside getTypeDetails/RegisterTypeMigration: migrations and received (opaque) names are bypassed")
 				case gtd:
 					n++
